@@ -104,6 +104,7 @@ type c19Item struct {
 	target  int    // 0 interface{}, 1 struct, 2 RawMessage, 3 []byte, 4 struct with a field whose UnmarshalJSON parks
 	overLim bool
 	cut     bool // the transport ends in the middle of this (fragmented) message
+	cutBetween bool
 	desc    string
 }
 
@@ -233,6 +234,13 @@ func runC19(r *Run) {
 			if it.valid && !it.overLim && len(it.doc) >= 8 && t.Pct(12) {
 				it.cut = true
 				it.desc = "transport-cut-inside"
+				if it.target == 0 && t.Pct(50) {
+					// a number: every prefix of it is a valid document too; the peer is
+					// gone exactly between the two fragments
+					it.doc = []byte("1234567890123")
+					it.cutBetween = true
+					it.desc = "transport-cut-between-fragments"
+				}
 			}
 			cs.items = append(cs.items, it)
 			if !it.valid || it.overLim || it.cut {
@@ -290,6 +298,11 @@ func runC19(r *Run) {
 				// two fragments, the peer is gone after a few bytes of the second
 				h := len(it.doc) / 2
 				b := peer.Encode(MessageFrames(MsgSpec{Typ: wsref.OpText, Data: it.doc, Frags: []int{h, len(it.doc) - h}}, nil)...)
+				if it.cutBetween {
+					first := peer.Encode(wsref.Frame{Fin: false, Opcode: wsref.OpText, Payload: it.doc[:h]})
+					stream = append(stream, first...)
+					continue
+				}
 				stream = append(stream, b[:len(b)-(len(it.doc)-h)/2-1]...)
 				continue
 			}
